@@ -77,5 +77,6 @@ let () =
         done;
         dump ()
     | ["adv"; ms] -> now := !now + int_of_string ms
+    | ["clock"; ms] -> now := int_of_string ms
     | [] -> ()
     | _ -> print_endline ("? " ^ line))
